@@ -174,9 +174,8 @@ func specEq(a, b JsonNode, options []Option) bool {
 		return ok && specAbs(float64(x)-float64(y)) <= specPrecision(options)
 	case jsonObject:
 		y, ok := b.(jsonObject)
-		return ok && len(x) == len(y) && forallKey(x, x, func(k string) bool {
-			_, has := y[k]
-			return has && specEq(x[k], y[k], options)
+		return ok && forallKey(x, y, func(k string) bool {
+			return mapHas(x, k) && mapHas(y, k) && specEq(x[k], y[k], options)
 		})
 	case jsonList:
 		y, ok := specDispatch(b, options).(jsonList)
@@ -413,4 +412,15 @@ func validHunk(de DiffElement) bool {
 
 func validDiff(d Diff) bool {
 	return forallInt(0, len(d), func(i int) bool { return validHunk(d[i]) })
+}
+
+// specHasMerge: some MERGE option is present.
+func specHasMerge(options []Option) bool {
+	if len(options) == 0 {
+		return false
+	}
+	if _, ok := options[0].(mergeOption); ok {
+		return true
+	}
+	return specHasMerge(options[1:])
 }
